@@ -14,7 +14,7 @@ use crate::{
 use std::collections::HashSet;
 use swc_common::{SyntaxContext, DUMMY_SP};
 use swc_ecma_ast::{Stmt::Decl as DeclEnumOption, *};
-use swc_ecma_visit::{Visit, VisitMut, VisitMutWith};
+use swc_ecma_visit::{Visit, VisitMut, VisitMutWith, VisitWith};
 
 pub struct BlockTransformVisitor<'a> {
     pub transform_status: &'a mut TransformStatus,
@@ -77,6 +77,18 @@ impl VisitMut for BlockTransformVisitor<'_> {
     }
 
     fn visit_mut_program(&mut self, node: &mut Program) {
+        // the per-block check only sees identifiers the operation visitor walks through: refuse any
+        // file that mentions the reserved prefix anywhere (top-level code, parameters, arrow
+        // parameters, delete operands...) before injecting a declaration that could clash with it
+        let mut finder = ReservedPrefixFinder {
+            prefix: get_dd_local_variable_prefix(&self.config.local_var_prefix),
+            found: false,
+        };
+        node.visit_with(&mut finder);
+        if finder.found {
+            return self.cancel_visit("Variable name duplicated");
+        }
+
         node.visit_mut_children_with(self);
 
         if self.transform_status.status == Status::Modified {
@@ -104,6 +116,19 @@ impl VisitMut for BlockTransformVisitor<'_> {
                     }
                 }
             }
+        }
+    }
+}
+
+struct ReservedPrefixFinder {
+    prefix: String,
+    found: bool,
+}
+
+impl Visit for ReservedPrefixFinder {
+    fn visit_ident(&mut self, ident: &Ident) {
+        if ident.sym.starts_with(&self.prefix) {
+            self.found = true;
         }
     }
 }
